@@ -31,7 +31,8 @@ CutCell == O.cut # 0 \/ ~Bounded(OC)
 Want    == IF CutCell THEN Stop(OC) ELSE Expected(OC)
 
 \* lines of cells that were not run (skipped after confirmed blocked cells of the same group) decide nothing
-Off == l = 0 \/ O.skipped
+\* ... and so do the control cells whose file holds an entry over the provider's size limit (RejectOK speaks about them)
+Off == l = 0 \/ O.skipped \/ O.reject
 
 \* the recorded lines are exactly the cells of the matrix, once each
 \* ... once per file system the driver ran on (mem = afero.MemMapFs, os = afero.OsFs with real files)
@@ -63,6 +64,17 @@ EngineOK  == Off \/ ~O.eng \/ (/\ O.eng_ret /\ O.eng_class = "nil" /\ O.eng_wait
 \* the ammo file is released at the end of every run: the number of descriptors the driver process holds does not
 \* grow with the number of cells it has run (one-sided; FdSlack covers the runtime's own descriptors and the
 \* few goroutines abandoned after blocked cells)
+\* every entry looked the same (everything a gun sees of it) each time it was delivered: what is re-created after a
+\* rewind (scanners, readers, decoders, header accumulators, pooled ammo) behaves on pass >= 2 as on pass 1
+Stable    == Off \/ O.variants = 0
+\* control: an entry over the (not raised) size limit is a clean failure, never a hang: Run returns, the sink is
+\* closed, every consumer sees ok=false; either the bounds were reached in front of that entry (over_at entries precede
+\* it in the first pass) and the run ended normally, or exactly those over_at entries were delivered and Run returned an
+\* error (at the boundary Want = over_at both are accepted: grpc/json reads the next line before it looks at the limit)
+RejectOK  == l = 0 \/ O.skipped \/ ~O.reject \/
+             (/\ O.run_ret /\ O.cons_done /\ O.eofs = O.nc /\ ~O.cancelled /\ O.variants = 0
+              /\ \/ O.run_class = "err" /\ O.count = O.over_at /\ Want >= O.over_at
+                 \/ O.run_class = "nil" /\ O.count = Want /\ Want <= O.over_at)
 FdSlack   == 16
 NoFdLeak  == Off \/ O.fds0 < 0 \/ O.fds <= O.fds0 + FdSlack
 =============================================================================
